@@ -153,6 +153,20 @@ class RemoteContext(SupportRemoteGetState):
             assert self._payload is not None
             self._target, self._args, self._kwargs, self._extra_state = loads(self._payload)
             self._payload = None
+
+            # the server force-kills us (SIGTERM) if we do not finish within its timeout, e.g. because one of our
+            # children does not react to a termination request - do not leave our children behind in that case
+            def kill_children(*args):
+                for child in self._children:
+                    try:
+                        if child.is_alive():
+                            os.kill(child.pid, signal.SIGTERM)
+                    except Exception:
+                        pass
+                signal.signal(signal.SIGTERM, signal.SIG_DFL)
+                os.kill(os.getpid(), signal.SIGTERM)
+
+            signal.signal(signal.SIGTERM, kill_children)
             return True
 
         if _clean:
